@@ -124,7 +124,9 @@ InOwnSwr(r, a) == r.ccp = 1 /\ r.swr >= 0 /\ a - OwnLifeMax(r) < r.swr
 
 StalenessAllowed(r, a, rq) ==
   \/ MayFresh(r, a, rq)
-  \/ SatGap(r, a)
+  \* an age of "at least 2^31" against a lifetime (or tolerated staleness) that is itself "at least 2^31": undetermined.
+  \* Against a lifetime that is a known number such an age is simply too old.
+  \/ (SatGap(r, a) /\ (EffLifeMax(r, rq) >= CAP \/ rq.ms >= CAP \/ rq.ms = NoArg))
   \/ MaxStaleCovers(r, a, rq)
   \/ Has(rq, "only-if-cached")
   \/ InOwnSwr(r, a)
@@ -189,7 +191,8 @@ SieForbidden(r, rq) ==
   \/ UnqualifiedNoCache(r)
   \/ Has(rq, "no-cache")
 \* upper bound: staleness at most N (boundary inside)
-MaySie(r, a, rq) == ~SieForbidden(r, rq) /\ (SatGap(r, a) \/ \E n \in SieWindows(r, rq) : a - EffLifeMax(r, rq) <= n)
+MaySie(r, a, rq) == ~SieForbidden(r, rq) /\ \E n \in SieWindows(r, rq) :
+                       a - EffLifeMax(r, rq) <= n \/ (SatGap(r, a) /\ (EffLifeMax(r, rq) >= CAP \/ n >= CAP))
 \* lower bound: inside the window by more than a second
 MustSie(r, a, rq) == ~SieForbidden(r, rq) /\ ~SatGap(r, Sat(a + 2)) /\ \E n \in SieWindows(r, rq) : a + 2 - EffLifeMin(r, rq) < n
 =============================================================================
